@@ -91,8 +91,26 @@ def lifecycle_history(rng, n):
     return ops
 
 
+def design_level(out, tier):
+    """Lifecycle.tla: handles on one directory (create / open / busy open / close / pickle / fork / use)."""
+    from ..tlc import run_tlc
+    res = run_tlc('MCLifecycle.tla', 'MCLifecycle_ok.cfg', workers=8, timeout=600)
+    if res.error or res.violation:
+        raise MachineryError('MCLifecycle_ok: %s %s\n%s' % (res.error, res.violation, res.out[-1500:]))
+    out.add_tlc('MCLifecycle_ok.cfg', res, '3 handles, <= 3 processes, create with arguments, open / busy open / close / pickle / fork / store / remove; '
+                                           'SettingsComeBack, SameCodec, OneContents, UsedConnectionIsOwn')
+    rej = []
+    for name, inv in (('dev_busy', 'SettingsComeBack'), ('dev_pickle', 'SameCodec'), ('dev_conn', 'UsedConnectionIsOwn')):
+        res = run_tlc('MCLifecycle.tla', 'MCLifecycle_%s.cfg' % name, workers=2, timeout=300)
+        if res.violation != inv:
+            raise MachineryError('MCLifecycle_%s was expected to violate %s, got %s %s' % (name, inv, res.violation, res.error))
+        rej.append('%s violates %s' % (name, inv))
+    out.notes['design_deviations_rejected'] = rej
+
+
 def run(prop, tier, seed):
     out = Outcome('C18', tier, seed)
+    design_level(out, tier)
     rng = random.Random(seed * 295075147 + 18)
     jobs = []
     n, length = (40, 70) if tier == 'quick' else (500, 140)
@@ -156,7 +174,7 @@ def run(prop, tier, seed):
         envctl.rm(scratch)
     out.samples.append({'cfg': traces[0]['cfg'], 'ops': [[e['op'], e['a'], e['ret']] for e in traces[0]['ev'][:14]]})
     out.notes['lifecycle_events'] = sum(1 for t in traces for e in t['ev'] if e['op'] in ('reopen', 'pickle', 'close', 'via', 'settings'))
-    out.level = 'exploration'
+    out.level = 'model_checking'
     out.assumptions += ['lifecycle events for Deque / Index (reopen, copy, pickle) are part of C11 / C12; FanoutCache and DjangoCache handles are exercised '
                         'through the fixture (reopen by a fresh handle) and through C13 / C19',
                         'the format-stability part is a golden-file comparison (fixtures/released, written once by the pinned version) expressed as a trace']
